@@ -1010,7 +1010,14 @@ func (e *Env) call(x *ECall) Val {
 		if gv, ok := c.ghost[key]; ok {
 			return gv
 		}
-		e.fail("lastret(%q): no call to that callee reaches this point", st.Val)
+		if ty, seen := c.lastretTy[key]; seen {
+			// the callee is called somewhere in this function but not on the way to this point: an arbitrary value
+			return Val{T: c.fresh("ghost_unset", c.sortOf(ty)), Ty: ty}
+		}
+		if c.discover {
+			e.fail("lastret-unset")
+		}
+		e.fail("lastret(%q): the function never calls that callee", st.Val)
 	case "emod":
 		// emod(x, k): mathematical (always non-negative) remainder; cheaper for the solver than Go's signed %
 		a := e.mat(e.tr(x.Args[0]))
